@@ -282,7 +282,7 @@ def opts_json(opts):
 
 class Plan:
     __slots__ = ('path', 'kind', 'field', 'vfield', 'form', 'start', 'stop', 'idx', 'et', 'srcs', 'codeform', 'op',
-                 'opts', 'quant', 'lo', 'length', 'desc', 'corrupt', 'view')
+                 'opts', 'quant', 'lo', 'length', 'desc', 'corrupt', 'view', 'delim')
 
     def describe(self):
         return {k: getattr(self, k, None) for k in ('path', 'kind', 'field', 'form', 'start', 'stop', 'idx', 'et',
@@ -768,6 +768,10 @@ def _pys(b, n):
     return n if b == 'end' else b
 
 
+# only the key: value containers splice a delimited source of their own kind (a `[a, b]` put to List.elts is ONE element)
+_OWN_DELIMS = {('Dict', '_all'): '{}', ('MatchMapping', '_all'): '{}'}
+
+
 def build_code(plan: Plan, node, o: Oracle, rng):
     """The code argument in the planned form. Returns (code, one) where one is the `one` argument for slice puts, or
     raises _Skip when the form does not exist for this slot."""
@@ -787,6 +791,12 @@ def build_code(plan: Plan, node, o: Oracle, rng):
                 plan.field not in ('decorator_list', 'ifs') and not (plan.kind == 'Assign' and plan.field == 'targets'):
             joined += ','  # a single undelimited element of a comma sequence
         if cf == 'src' or o.elems is None:
+            # the same elements written as a DELIMITED sequence of the container's own kind (documented: spliced, not
+            # nested): the result must not depend on that layout of the new code
+            delim = _OWN_DELIMS.get((plan.kind, plan.field))
+            want = getattr(plan, 'delim', None)
+            if delim and o.elems is not None and plan.corrupt is None and (rng.random() < 0.35 if want is None else want):
+                return delim[0] + joined + delim[1], False
             return joined, False
         if cf == 'ast':
             if et in ('expr', 'target') and plan.kind in ('Tuple', 'List', 'Set', 'Delete', 'Call', 'ClassDef', 'Assign'):
